@@ -52,3 +52,7 @@ Proof. vm_compute. reflexivity. Qed.
 (* NewProxyResolver evaluates the helper library before the script *)
 Lemma ob_library_before_script : library_before_script = true.
 Proof. vm_compute. reflexivity. Qed.
+
+(* ProxyResolverPool.FindProxyForURL puts the resolver back after the evaluation *)
+Lemma ob_pool_put_after_eval : pool_put_after_eval = true.
+Proof. vm_compute. reflexivity. Qed.
